@@ -192,11 +192,11 @@ def cases(run):
         yield (f"row {arm(seqid)} {rng.choice(list(ROWTYPES))} {s} {e} {rng.choice('+-.')} {rng.choice('.012')} "
                + _attr_case(rng, run))
     # (a/b) explicit-GUID collections: model rows vs the real writer, judged by the Lean reference decoder --------
-    for i in range(400 if quick else 6000):
+    for i in range(600 if quick else 6000):
         yield _rows_case(rng, run, small=(i % 3 == 0))
     yield f"rows chrom 1 chr1 N 0"                     # empty collection: header only
     # (b)(c)(d) generated collections through the whole pipeline ---------------------------------------------------
-    per = 12 if quick else 150
+    per = 20 if quick else 150
     for profile in gff_check.PROFILES:
         seeds = list(range(3)) + [rng.randrange(10, 10 ** 6) for _ in range(per)]
         for seed in seeds:
